@@ -608,6 +608,14 @@ def run_cluster(ctx, prop):
             ctx.dist["hash-colliding pair evaluated first"] += 1
             tail = gen_sequence(rng)[: rng.randint(0, 4)]
             Run(ctx, prop, rng, workers=rng.choice([1, 3])).run(pop, ["speciation", rng.choice(["selection-roulette", "selection-tournament"])] + tail)
+    # large populations (more individuals than any plausible task or batch limit, and not a multiple of one): every individual
+    # is evaluated once by speciation + selection and the selected ones come from the whole population
+    for n_ind in (17, 20, 33, 40)[: ctx.n(2, 4)]:
+        if ctx.out_of_time():
+            break
+        ctx.dist[f"large population:{n_ind}"] += 1
+        pop = EVQEPopulation.random_population(2, rng.randint(1, 2), n_ind, True, rng.randint(0, 10**6))
+        Run(ctx, prop, rng, workers=rng.choice([1, 3])).run(pop, ["speciation", rng.choice(["selection-roulette", "selection-tournament"])])
     # the repaired findings: 1-qubit individuals through parameter search and removal (F5, F6), history aliasing (F7)
     pop = EVQEPopulation.random_population(1, 3, 4, True, 11)
     Run(ctx, prop, rng, 1).run(pop, ["speciation", "selection-tournament", "last-layer", "removal", "speciation", "selection-roulette", "param-search", "topological", "speciation"])
